@@ -77,7 +77,7 @@ def run(params, chooser, memo=None):
             return {'redirect': [code, 'http://[bad']}
         raise KeyError(ans)
 
-    argv = ['http://a.test' + START] + ([] if params.get('robots') else ['--no-robots']) + [
+    argv = ['http://a.test' + START] + (['-r'] if params.get('robots') else ['--no-robots']) + [
             '--delete-after', '--waitretry', '0',
             '--max-redirect', str(mr), '--tries', str(tries), '--http-user', 'u',
             '--http-password', 'p']
@@ -92,12 +92,20 @@ def run(params, chooser, memo=None):
         st['visit'] += 1
         return rec
     wrap.URLTableHookWrapper.check_out = check_out
+    import wpull.protocol.http.web as webmod
+    orig_session = webmod.WebClient.session
+
+    def session(self, request):
+        events.append(('websession', request.url_info.path))
+        return orig_session(self, request)
+    webmod.WebClient.session = session
     try:
         ar = AppRun(site, argv, chooser, strategy=strategy, early=False,
                     horizon=params.get('horizon', 25000))
         out = ar.run()
     finally:
         wrap.URLTableHookWrapper.check_out = orig_co
+        webmod.WebClient.session = orig_session
     violation = judge(params, out, events)
     sig = None
     if violation:
@@ -129,42 +137,44 @@ def judge(params, out, events):
             visits.append(cur)
         elif cur is not None:
             cur['reqs'].append(e)
-        else:
+        elif e[0] == 'req':
             return 'request before any check-out'
     per_url = Counter()
     for v in visits:
-        reqs = v['reqs']
-        if not reqs:
+        if not any(e[0] == 'req' for e in v['reqs']):
             continue
         per_url[v['url']] += 1
-        follow = 0
-        auth_run = 0
-        for i in range(1, len(reqs)):
-            prev = reqs[i - 1][2]
-            if prev.startswith('r') and not prev.endswith(('noloc', 'badloc')):
-                follow += 1
-                auth_run = 0
-            elif prev == 's401':
-                auth_run += 1
-                if auth_run > 1:
-                    return ('two authentication retries in a row for one hop (visit of %s)'
-                            % v['url'])
-            else:
-                return 'request issued after a final answer %s within one visit' % prev
-        robots_reqs = [r for r in reqs if r[1] == '/robots.txt' or
-                       (params.get('robots') and reqs and reqs[0][1] == '/robots.txt'
-                        and r is not reqs[-1] and False)]
-        if params.get('robots'):
-            # the robots.txt fetch is a redirect-following session of its own inside the
-            # visit: the bound applies to each of the two sessions
-            limit_f, limit_n = 2 * mr, 4 * (mr + 1)
-        else:
-            limit_f, limit_n = mr, 2 * (mr + 1)
-        if follow > limit_f:
-            return ('%d redirect follow-ups in one visit, limit is %d (answers %s)'
-                    % (follow, limit_f, [r[2] for r in reqs]))
-        if len(reqs) > limit_n:
-            return '%d requests in one visit (limit %d redirects)' % (len(reqs), mr)
+        sessions = []
+        for e in v['reqs']:
+            if e[0] == 'websession':
+                sessions.append([])
+            elif e[0] == 'req':
+                if not sessions:
+                    return 'request outside any web session'
+                sessions[-1].append(e)
+        max_sessions = 2 if params.get('robots') else 1
+        if len([x for x in sessions if x]) > max_sessions:
+            return '%d request sessions in one visit of %s' % (len(sessions), v['url'])
+        for reqs in sessions:
+            follow = 0
+            auth_run = 0
+            for i in range(1, len(reqs)):
+                prev = reqs[i - 1][2]
+                if prev.startswith('r') and not prev.endswith(('noloc', 'badloc')):
+                    follow += 1
+                    auth_run = 0
+                elif prev == 's401':
+                    auth_run += 1
+                    if auth_run > 1:
+                        return ('two authentication retries in a row for one hop (visit of '
+                                '%s)' % v['url'])
+                else:
+                    return 'request issued after a final answer %s within one session' % prev
+            if follow > mr:
+                return ('%d redirect follow-ups in one session, limit is %d (answers %s)'
+                        % (follow, mr, [r[2] for r in reqs]))
+            if len(reqs) > 2 * (mr + 1):
+                return '%d requests in one session (limit %d redirects)' % (len(reqs), mr)
     for u, n in per_url.items():
         if n > tries:
             return '%s was attempted %d times, --tries is %d' % (u, n, tries)
@@ -195,8 +205,10 @@ def jobs(tier, seed):
     for ans in ('s500', 'close', 'r301same', 's401', 'r307prev', 'r303noloc'):
         js.append(dict(params=dict(max_redirect=2, tries=3, depth=0, always=ans, robots=True),
                        prefix=[]))
-    js.append(dict(params=dict(max_redirect=1, tries=2, depth=5 if tier == 'quick' else 7,
-                               robots=True), prefix=[]))
+    js.append(dict(params=dict(max_redirect=1, tries=2, depth=4 if tier == 'quick' else 6,
+                               robots=True,
+                               menu=['ok200', 'r301same', 'r302fresh', 's500', 's401', 'close']),
+                   prefix=[]))
     if seed:
         k = seed % len(js)
         js = js[k:] + js[:k]
